@@ -648,3 +648,51 @@ func TestC19_RaceStress(t *testing.T) {
 	h.LabelN(fmt.Sprintf("stress-ops/minimal=%v", minimal), int(nOps))
 	h.MarkCompleted()
 }
+
+// TestC19_AtomicHammer: operations whose sequential specification allows
+// exactly one winner are fired simultaneously by several goroutines, many
+// rounds: SetClientAssertionJWT / MarkJWTUsedForTime on one jti.
+func TestC19_AtomicHammer(t *testing.T) {
+	h.SetProperty("C19")
+	selfTest(t)
+	rounds := 4000
+	if Tier() == "thorough" {
+		rounds = 60000
+	}
+	s := storage.NewMemoryStore()
+	ctx := context.Background()
+	const nG = 8
+	for r := 0; r < rounds; r++ {
+		jti := fmt.Sprintf("hammer-%d", r)
+		var wins int64
+		var start, done sync.WaitGroup
+		start.Add(1)
+		for g := 0; g < nG; g++ {
+			done.Add(1)
+			go func(g int) {
+				defer done.Done()
+				start.Wait()
+				var err error
+				if g%2 == 0 {
+					err = s.SetClientAssertionJWT(ctx, jti, h.Now().Add(time.Hour))
+				} else {
+					err = s.MarkJWTUsedForTime(ctx, jti, h.Now().Add(time.Hour))
+				}
+				if err == nil {
+					atomic.AddInt64(&wins, 1)
+				}
+			}(g)
+		}
+		start.Done()
+		done.Wait()
+		if wins != 1 {
+			h.Violate(t, "C19/jti-marking-not-atomic", "%d goroutines marked the same jti simultaneously and %d of them succeeded (round %d)", nG, wins, r)
+		}
+	}
+	h.CaseN(rounds)
+	h.Case("hammer/jti", true, func() any {
+		return map[string]any{"engine": "atomic-hammer", "operation": "SetClientAssertionJWT / MarkJWTUsedForTime on one jti", "goroutines": nG, "rounds": rounds}
+	})
+	h.Case("hammer/jti/2", true, nil)
+	h.MarkCompleted()
+}
